@@ -442,6 +442,28 @@ def write_replay(pid, payload):
     return p
 
 
+class CaseTimeout(BaseException):
+    pass
+
+
+def run_with_deadline(mod, d):
+    """mod.run(d) under a per-case wall-clock limit (module attribute CASE_TIMEOUT_S, default 120 s; SIGALRM, main thread)"""
+    import signal
+
+    limit = int(getattr(mod, "CASE_TIMEOUT_S", 120))
+
+    def on_alarm(signum, frame):
+        raise CaseTimeout(limit)
+
+    old = signal.signal(signal.SIGALRM, on_alarm)
+    signal.alarm(limit)
+    try:
+        return mod.run(d)
+    finally:
+        signal.alarm(0)
+        signal.signal(signal.SIGALRM, old)
+
+
 def evaluate_cases(mod, descs, budget_s=None):
     """run implementation + model on each desc; returns list of result dicts"""
     t0 = time.time()
@@ -450,7 +472,17 @@ def evaluate_cases(mod, descs, budget_s=None):
         if budget_s is not None and time.time() - t0 > budget_s:
             break
         try:
-            r = mod.run(d)
+            r = run_with_deadline(mod, d)
+        except CaseTimeout as e:
+            # the implementation (all cases are small) did not come back: a property about what a function returns is
+            # not met by a function that does not return - reported as a counterexample with this input as the replay
+            r = dict(wire=None, impl=None, pred="no-return: the implementation did not return within %d s on this input" % e.args[0],
+                     features=["timeout"])
+            n_timeouts = 1 + sum(1 for x in ran if "timeout" in x.get("features", ()))
+            if n_timeouts >= 3:      # three inputs on which the code does not return are enough: stop exploring
+                r["desc"] = d
+                ran.append(r)
+                break
         except (Exception, SystemExit) as e:  # harness-level problem: surfaces as a disagreement, never silently dropped
             r = dict(wire=None, impl=None, pred=None, features=["harness-exception"],
                      harness_error="%s: %s\n%s" % (type(e).__name__, e, traceback.format_exc()[-1500:]))
